@@ -1,156 +1,545 @@
 /-
-C06 — property theorems about the symbol map and the global-slot recycler.
+C06 — "earlier definitions keep their meaning across any evaluation history": the property theorems.
+
+* `slots_refine_cells` — for EVERY history (any number of pieces, definitions, redefinitions, `set!`s, calls,
+  failing builds, run-time failures, any number of recycler runs, any initial threshold / epoch) inside the
+  decidable guards, the mechanism M (symbol map with shadow / free lists, global vector, roll-back, slot
+  recycler with its trigger) produces exactly the results of the specification S (binding cells).
+* `slots_refine_cells_any_reuse_order` — the same when an oracle permutes the free list before every unit (the
+  real recycler's hash set decides which reclaimed slot a later definition takes).
+* `live_slots_owned` — the invariant of DESIGN §7: in every reachable state there is a map slot ↦ cell under
+  which every function stored in a slot in use mentions only slots that are in use, are not on the free list and
+  are owned by the cell that the specification's function captured.
+* corollaries `redefinition_only_affects_later_code`, `set_visible_to_all`, `failed_unit_is_noop_partial`;
+* `propagate_refines_partial` / `slots_refine_cells_real` — the pipeline that exists runs a unit-local constant
+  propagation before M (`evalPieceR`); inside the decidable guard `histOKA` (no form assigns a cell whose
+  definition was propagated — the negation of the class of K06a) it is invisible, so the whole pipeline refines S;
+* decided witnesses outside each guard (`k06a_outside_guard`, `k06b_outside_guard`, `k06c_outside_guard`,
+  `use_before_define_outside_guard`) — they are the replays of the open findings K06a, K06b, K06c;
+* non-vacuity: a history that crosses the recycling threshold while a live function still refers to a shadowed
+  slot (through another shadowed slot), a slot is reclaimed and reused.
+
+The older unit-level theorems (`scan_complete`, `gen_recycler_fixpoint`, `get_add`, `recycle_safe`, …,
+`rollback_restores_partial`, `not_rollbackRestores`) are in `LemmasRecycler.lean` / `Rollback.lean` and are used
+here; `Audit.lean` lists all of them.
 -/
-import SteelVerif.C06.Model
-import SteelVerif.C06.GenScan
+import SteelVerif.C06.LemmasHistory5
+import SteelVerif.C06.LemmasPropagate3
 namespace SteelVerif.C06
 
-/-! ## The recycler's scan list covers every op code that indexes the global vector -/
+/-- The empty engine, with any recycling threshold and epoch. -/
+def emptyM (t e : Nat) : State := { sym := { fl := { threshold := t, epoch := e } } }
 
-/-- Op codes (of those the code generator emits in the jit2 configuration) whose handler indexes the
-global vector with the instruction's payload, plus `DynSuperInstruction`, which overwrites the op code of
-a compiled function's entry instruction and keeps its payload. -/
-def globalIndexingOps : List String :=
-  ["CALLGLOBAL", "CALLGLOBALTAIL", "CALLGLOBALNOARITY", "CALLGLOBALTAILNOARITY", "CALLPRIMITIVE",
-   "PUSH", "SET", "DynSuperInstruction"]
+theorem rel_empty (t e : Nat) : Rel (fun _ => none) {} (emptyM t e) := by
+  refine ⟨wf_empty, ⟨?_, ?_, ?_, List.nodup_nil⟩, Nat.le_refl _, ?_, ?_, ?_, ?_, ?_, ?_, ?_⟩
+  · intro f hf; cases hf
+  · intro f hf; cases hf
+  · intro f hf; cases hf
+  · intro n; rfl
+  · intro n i hn; simp [emptyM, SymMap.get] at hn
+  · intro i j c hi; cases hi
+  · intro i c hi; cases hi
+  · intro i c hi; cases hi
+  · intro i c hi; cases hi
+  · intro f hf; cases hf
 
-/-- `recyclerScanOps` is regenerated from `values/closed.rs` on every run: dropping an op code from
-`GlobalSlotRecycler::visit_closure` makes this theorem fail to check. -/
-theorem scan_complete : ∀ op ∈ globalIndexingOps, op ∈ recyclerScanOps := by decide
+/-! ## The refinement theorem -/
 
-/-- The model's `recycleLoop` iterates to a fixed point (`recycle_safe` below is about that loop); this obligation
-ties it to the source: it stops checking when `GlobalSlotRecycler::recycle` no longer re-walks the values of
-newly live shadowed slots until nothing changes (a single extra pass frees a slot that is reachable through a
-chain of three shadowed bindings). -/
-theorem gen_recycler_fixpoint : recyclerIteratesToFixpoint = true := by decide
+/-- From any pair of related states. -/
+theorem slots_refine_cells_from : ∀ (hist : History) {own : Own} {s : Spec.State} {m : State},
+    Rel own s m → Assigned m.sym m.globals → histOK m hist = true →
+    runM m hist = runS s hist ∧
+    ∃ own', Rel own' (stateS s hist) (stateM m hist) ∧ Assigned (stateM m hist).sym (stateM m hist).globals := by
+  intro hist
+  induction hist with
+  | nil => intro own s m h hA _; exact ⟨rfl, own, h, hA⟩
+  | cons p rest ih =>
+    intro own s m h hA hok
+    simp only [histOK, Bool.and_eq_true] at hok
+    obtain ⟨hres, own', h', hA'⟩ := step_refines h hA p hok.1
+    obtain ⟨hrest, hfin⟩ := ih h' hA' hok.2
+    exact ⟨by simp only [runM, runS, hres, hrest], hfin⟩
 
-/-! ## `SymbolMap::add` / `get` -/
+/-- **slots refine cells.**  For every history inside the guards, from the empty engine with any threshold and
+epoch: every top-level evaluation gives the same result through slots (M) as through binding cells (S). -/
+theorem slots_refine_cells (t e : Nat) (hist : History) (hok : histOK (emptyM t e) hist = true) :
+    runM (emptyM t e) hist = runS {} hist :=
+  (slots_refine_cells_from hist (rel_empty t e) rfl hok).1
 
-theorem find_mapInsert (map : List (Name × Nat)) (n n' : Name) (i : Nat) :
-    ((mapInsert map n i).find? (·.1 == n')).map (·.2) =
-      if n' = n then some i else (map.find? (·.1 == n')).map (·.2) := by
-  unfold mapInsert
-  by_cases h : n' = n
-  · subst h; simp
-  · have hne : (n == n') = false := by simp; exact fun e => h e.symm
-    simp only [List.find?_cons, hne, h, if_false, List.find?_filter]
-    congr 2
-    funext a
-    by_cases ha : a.1 = n'
-    · have : a.1 ≠ n := fun e => h (ha ▸ e)
-      simp [ha, this]; exact fun e => h e
-    · simp [ha]
+/-- The same for the pipeline that exists (unit-local constant propagation, then M): it computes what S computes
+on the propagated units. -/
+theorem slots_refine_cells_propagated (t e : Nat) (hist : History)
+    (hok : histOK (emptyM t e) (hist.map propagate) = true) :
+    runM (emptyM t e) (hist.map propagate) = runS {} (hist.map propagate) :=
+  slots_refine_cells t e _ hok
 
-/-- After a definition the name resolves to the slot just taken; every other name is unaffected. -/
-theorem get_add (m : SymMap) (n n' : Name) :
-    (m.add n).1.get n' = if n' = n then some (m.add n).2 else m.get n' := by
-  simp only [SymMap.add, SymMap.get]
-  exact find_mapInsert _ _ _ _
+/-- **The invariant** (DESIGN §7).  After every history inside the guards there is a map slot ↦ cell such that:
+names resolve to the slot carrying their cell; two slots never carry the same cell; a slot in use is not on the
+free list; and a function stored in a slot in use corresponds, mention by mention, to the function stored in its
+cell — every slot it mentions is in use, hence not on the free list, and is owned by the cell that the
+specification's function captured. -/
+theorem live_slots_owned (t e : Nat) (hist : History) (hok : histOK (emptyM t e) hist = true) :
+    ∃ own : Own,
+      (∀ n, Spec.lookup (stateS {} hist).env n = ((stateM (emptyM t e) hist).sym.get n).bind own) ∧
+      (∀ i j c, own i = some c → own j = some c → i = j) ∧
+      (∀ i c, own i = some c → i ∉ (stateM (emptyM t e) hist).sym.fl.free) ∧
+      (∀ i c refs, own i = some c → (stateM (emptyM t e) hist).globals[i]? = some (.fn refs) →
+        ∃ refs', (stateS {} hist).cells[c]? = some (.fn refs') ∧ refs.map (absRef own) = refs'.map some ∧
+          ∀ r ∈ refs.filterMap FRef.slot, r ∉ (stateM (emptyM t e) hist).sym.fl.free ∧ ∃ cr, own r = some cr) := by
+  obtain ⟨_, own, h, hA⟩ := slots_refine_cells_from hist (rel_empty t e) rfl hok
+  refine ⟨own, h.names, h.inj, h.notfree, ?_⟩
+  intro i c refs hi hg
+  rcases h.vals i c hi with ⟨v, v', h1, h2, h3⟩ | ⟨h1, _⟩
+  · rw [hg] at h1; cases h1
+    cases v' <;> simp only [ValRel] at h3
+    rename_i refs'
+    refine ⟨refs', h2, h3, ?_⟩
+    intro r hr
+    obtain ⟨cr, hcr⟩ := absRefs_owned _ _ h3 r hr
+    exact ⟨h.notfree r cr hcr, cr, hcr⟩
+  · have := (List.getElem?_eq_some_iff.mp hg).1
+    omega
 
-/-- A redefinition queues the slot that was in force, and nothing else. -/
-theorem shadowed_add (m : SymMap) (n : Name) :
-    (m.add n).1.fl.shadowed = match m.get n with
-      | some p => m.fl.shadowed ++ [p]
-      | none => m.fl.shadowed := by
-  simp only [SymMap.add]
-  cases m.get n <;> rfl
+/-! ## Any order of reuse of reclaimed slots
 
-/-- Without a reclaimed slot to reuse, a definition takes a brand-new slot at the end. -/
-theorem add_fresh (m : SymMap) (n : Name) (h : m.fl.free = []) :
-    (m.add n).2 = m.values.length ∧ (m.add n).1.values = m.values ++ [n] ∧ (m.add n).1.fl.free = [] := by
-  simp [SymMap.add, h]
+The real recycler keeps the candidate slots in a hash set: the order in which reclaimed slots enter the free list —
+hence which slot a later definition takes — is not determined.  The theorem does not depend on it: before every
+piece an oracle may permute the free list. -/
 
-/-! ## The recycler frees only slots that no surviving slot's value mentions -/
+/-- Replace the free list. -/
+def withFree (m : State) (l : List Nat) : State :=
+  { m with sym := { m.sym with fl := { m.sym.fl with free := l } } }
 
-theorem mem_mentionedBy (g : List Val) (frontier : List Nat) (s : Nat) :
-    s ∈ mentionedBy g frontier ↔ ∃ i ∈ frontier, s ∈ slotsOf g i := by
-  simp [mentionedBy, List.mem_flatMap]
+theorem Rel.perm_free {own : Own} {s : Spec.State} {m : State} (h : Rel own s m) (l : List Nat)
+    (hp : l.Perm m.sym.fl.free) : Rel own s (withFree m l) := by
+  have hmem : ∀ f, f ∈ l ↔ f ∈ m.sym.fl.free := fun f => hp.mem_iff
+  refine ⟨h.wf, ⟨?_, ?_, ?_, ?_⟩, h.gle, h.names, h.mapped, h.inj, h.dom, ?_, h.vals, ?_⟩
+  · intro f hf; exact h.fo.free_lt f ((hmem f).mp hf)
+  · intro f hf; exact h.fo.free_not_shadowed f ((hmem f).mp hf)
+  · intro f hf; exact h.fo.free_not_mapped f ((hmem f).mp hf)
+  · exact hp.nodup_iff.mpr h.fo.free_nodup
+  · intro i c hi hf; exact h.notfree i c hi ((hmem i).mp hf)
+  · intro f hf; exact h.freeVoid f ((hmem f).mp hf)
 
-theorem mem_liveOf (g : List Val) (cands frontier : List Nat) (c : Nat) :
-    c ∈ liveOf g cands frontier ↔ c ∈ cands ∧ ∃ i ∈ frontier, c ∈ slotsOf g i := by
-  simp [liveOf, List.mem_filter, ← mem_mentionedBy]
+/-- The trace of M when an oracle reorders the free list before every piece. -/
+def runMO (oracle : State → List Nat) (m : State) : History → List Res
+  | [] => []
+  | p :: rest =>
+    (evalPiece (withFree m (oracle m)) p).2 :: runMO oracle (evalPiece (withFree m (oracle m)) p).1 rest
 
-theorem mem_dropLive (g : List Val) (cands frontier : List Nat) (c : Nat) :
-    c ∈ dropLive g cands frontier ↔ c ∈ cands ∧ c ∉ liveOf g cands frontier := by
-  simp [dropLive, List.mem_filter]
+def histOKO (oracle : State → List Nat) (m : State) : History → Bool
+  | [] => true
+  | p :: rest =>
+    pieceOK (withFree m (oracle m)) p && histOKO oracle (evalPiece (withFree m (oracle m)) p).1 rest
 
-/-- Loop invariant of the recycler's fixed point. -/
-theorem recycleLoop_closed (g : List Val) : ∀ (cands frontier visited : List Nat),
-    (∀ i ∈ visited, ∀ s ∈ slotsOf g i, s ∉ cands) →
-    (∀ d ∈ recycleLoop g cands frontier, d ∈ cands) ∧
-    (∀ i, (i ∈ visited ∨ i ∈ frontier ∨ (i ∈ cands ∧ i ∉ recycleLoop g cands frontier)) →
-      ∀ s ∈ slotsOf g i, s ∉ recycleLoop g cands frontier) := by
-  intro cands frontier
-  induction cands, frontier using recycleLoop.induct (globals := g) with
-  | case1 cands frontier hlive =>
-    intro visited hinv
-    rw [recycleLoop, dif_pos hlive]
-    refine ⟨fun d hd => hd, ?_⟩
-    intro i hi s hs hsc
-    rcases hi with hi | hi | ⟨hic, hid⟩
-    · exact hinv i hi s hs hsc
-    · have : s ∈ liveOf g cands frontier := (mem_liveOf g cands frontier s).mpr ⟨hsc, i, hi, hs⟩
-      rw [hlive] at this; cases this
-    · exact absurd hic hid
-  | case2 cands frontier hlive ih =>
-    intro visited hinv
-    rw [recycleLoop, dif_neg hlive]
-    have hinv' : ∀ i ∈ visited ++ frontier, ∀ s ∈ slotsOf g i, s ∉ dropLive g cands frontier := by
-      intro i hi s hs hsd
-      obtain ⟨hsc, hnl⟩ := (mem_dropLive g cands frontier s).mp hsd
-      rcases List.mem_append.mp hi with hv | hf
-      · exact hinv i hv s hs hsc
-      · exact hnl ((mem_liveOf g cands frontier s).mpr ⟨hsc, i, hf, hs⟩)
-    obtain ⟨h1, h2⟩ := ih (visited ++ frontier) hinv'
-    refine ⟨fun d hd => ((mem_dropLive g cands frontier d).mp (h1 d hd)).1, ?_⟩
-    intro i hi s hs
-    apply h2 i ?_ s hs
-    rcases hi with hi | hi | ⟨hic, hid⟩
-    · exact Or.inl (List.mem_append.mpr (Or.inl hi))
-    · exact Or.inl (List.mem_append.mpr (Or.inr hi))
-    · by_cases hl : i ∈ liveOf g cands frontier
-      · exact Or.inr (Or.inl hl)
-      · exact Or.inr (Or.inr ⟨(mem_dropLive g cands frontier i).mpr ⟨hic, hl⟩, hid⟩)
+theorem slots_refine_cells_any_reuse_order_from (oracle : State → List Nat)
+    (horacle : ∀ m, (oracle m).Perm m.sym.fl.free) : ∀ (hist : History) {own : Own} {s : Spec.State} {m : State},
+    Rel own s m → Assigned m.sym m.globals → histOKO oracle m hist = true →
+    runMO oracle m hist = runS s hist := by
+  intro hist
+  induction hist with
+  | nil => intro own s m _ _ _; rfl
+  | cons p rest ih =>
+    intro own s m h hA hok
+    simp only [histOKO, Bool.and_eq_true] at hok
+    have h0 := h.perm_free (oracle m) (horacle m)
+    have hA0 : Assigned (withFree m (oracle m)).sym (withFree m (oracle m)).globals := hA
+    obtain ⟨hres, own', h', hA'⟩ := step_refines h0 hA0 p hok.1
+    simp only [runMO, runS, hres, ih h' hA' hok.2]
 
-/-- **No live code can reach a freed slot.**  After `recycle`, the value stored in any global slot that
-was not freed mentions no freed slot (in the *old* global vector, i.e. before the freed slots are
-overwritten with void): the freed slots are unreachable from every surviving global, transitively. -/
-theorem recycle_safe (s : State) :
-    let cands := s.sym.fl.shadowed.eraseDups
-    let roots := (List.range s.globals.length).filter (fun i => !cands.contains i)
-    let dead := recycleLoop s.globals cands roots
-    ∀ i, i < s.globals.length → i ∉ dead → ∀ r ∈ slotsOf s.globals i, r ∉ dead := by
-  intro cands roots dead i hi hid r hr
-  have h := (recycleLoop_closed s.globals cands roots [] (by simp)).2
-  apply h i ?_ r hr
-  by_cases hc : i ∈ cands
-  · exact Or.inr (Or.inr ⟨hc, hid⟩)
-  · refine Or.inr (Or.inl ?_)
-    simp only [roots, List.mem_filter, List.mem_range]
-    exact ⟨hi, by simpa using hc⟩
+/-- **slots refine cells, whatever slot a definition reuses.** -/
+theorem slots_refine_cells_any_reuse_order (oracle : State → List Nat)
+    (horacle : ∀ m, (oracle m).Perm m.sym.fl.free) (t e : Nat) (hist : History)
+    (hok : histOKO oracle (emptyM t e) hist = true) : runMO oracle (emptyM t e) hist = runS {} hist :=
+  slots_refine_cells_any_reuse_order_from oracle horacle hist (rel_empty t e) rfl hok
 
-/-- Only queued (shadowed) slots are ever freed. -/
-theorem recycle_frees_only_shadowed (s : State) :
-    ∀ d ∈ recycleLoop s.globals s.sym.fl.shadowed.eraseDups
-        ((List.range s.globals.length).filter (fun i => !s.sym.fl.shadowed.eraseDups.contains i)),
-      d ∈ s.sym.fl.shadowed := by
-  intro d hd
-  have := (recycleLoop_closed s.globals _ _ [] (by simp)).1 d hd
-  exact List.mem_eraseDups.mp this
-
-/-! ## Non-vacuity and regression witnesses (concrete histories, evaluated by the kernel) -/
-
-/-- The D15 history: `h` calls the old `f`, which calls the old `g`; both are redefined.  The
-recycler must keep the old `g` (slot 1) although only the shadowed-but-live old `f` mentions it. -/
+/-- The oracle "reverse the free list" is admissible, and the theorem applies (here to the replay of K06a's first
+two units followed by a call; the free list is permuted whenever it is not empty). -/
 example :
-    let g : List Val := [.int 7, .fn [(false, 0)], .fn [(true, 1)], .fn [(true, 2)], .fn [(false, 0)], .fn [(false, 0)]]
-    recycleLoop g [1, 2] [0, 3, 4, 5] = [] := by
-  simp [recycleLoop, liveOf, dropLive, mentionedBy, slotsOf, Val.slots]
+    let oracle : State → List Nat := fun m => m.sym.fl.free.reverse
+    let hist : History := [[.defc "x" 5], [.deff "f" [.read "x"]], [.defc "x" 6], [.call "f"]]
+    (∀ m, (oracle m).Perm m.sym.fl.free) ∧ histOKO oracle (emptyM 100 1) hist = true ∧
+    runMO oracle (emptyM 100 1) hist = runS {} hist ∧ runS {} hist = [.ok [], .ok [], .ok [], .ok ["(5)"]] := by
+  intro oracle hist
+  have ho : ∀ m, (oracle m).Perm m.sym.fl.free := fun m => List.reverse_perm _
+  have hok : histOKO oracle (emptyM 100 1) hist = true := by decide
+  exact ⟨ho, hok, slots_refine_cells_any_reuse_order oracle ho 100 1 hist hok, by decide⟩
 
-/-- … and a slot nobody mentions is freed. -/
+/-! ## Corollaries -/
+
+theorem pieceOK_defc (m : State) (x : Name) (n : Int) : pieceOK m [.defc x n] = true := by
+  simp [pieceOK, guardC, guardB, guardU, buildOk, noneAfter, Form.uses]
+
+theorem pieceOK_call (m : State) (f : Name) : pieceOK m [.call f] = true := by
+  simp [pieceOK, guardC, guardB, guardU, noneAfter, defNames, Form.defines]
+
+theorem pieceOK_set (m : State) (x : Name) (n : Int) : pieceOK m [.set x n] = true := by
+  simp [pieceOK, guardC, guardB, guardU, noneAfter, defNames, Form.defines]
+
+theorem sEval_defc (s : Spec.State) (x : Name) (n : Int) :
+    Spec.evalPiece s [.defc x n] =
+      ({ env := (x, s.cells.length) :: s.env, cells := s.cells ++ [.int n] }, .ok []) := by
+  rw [sEvalPiece_eq]
+  have hN : defNames [Form.defc x n] = [x] := rfl
+  simp only [hN, Spec.bindAll, List.foldl_cons, List.foldl_nil, Spec.bind1]
+  have hb : sBuildOk ((x, s.cells.length) :: s.env) [Form.defc x n] = true := by
+    simp [sBuildOk, Form.uses]
+  rw [if_pos hb]
+  have hl : Spec.lookup ((x, s.cells.length) :: s.env) x = some s.cells.length := by
+    rw [lookup_cons, if_pos rfl]
+  have hr : Spec.runForm ((x, s.cells.length) :: s.env) (s.cells ++ [Spec.Val.void]) (.defc x n)
+      = some ((s.cells ++ [Spec.Val.void]).set s.cells.length (.int n), none) := by
+    simp only [Spec.runForm, hl, Option.map_some]
+  rw [sgo_cons_some _ _ _ _ _ _ _ none hr, sgo_nil]
+  simp
+
+theorem sEval_call (s : Spec.State) (f : Name) :
+    Spec.evalPiece s [.call f] = (s, match (Spec.lookup s.env f).bind (Spec.callFn s.cells 64) with
+      | some r => .ok [r]
+      | none => .err) := by
+  rw [sEvalPiece_eq]
+  have hN : defNames [Form.call f] = [] := rfl
+  simp only [hN, Spec.bindAll, List.foldl_nil]
+  cases hl : Spec.lookup s.env f with
+  | none =>
+    have hb : sBuildOk s.env [Form.call f] = false := by simp [sBuildOk, Form.uses, hl]
+    rw [if_neg (by simp [hb])]; rfl
+  | some c =>
+    have hb : sBuildOk s.env [Form.call f] = true := by simp [sBuildOk, Form.uses, hl]
+    rw [if_pos hb]
+    cases hc : Spec.callFn s.cells 64 c with
+    | none =>
+      have hr : Spec.runForm s.env s.cells (.call f) = none := by
+        simp only [Spec.runForm, hl, Option.bind_some, hc, Option.map_none]
+      rw [sgo_cons_none _ _ _ _ _ _ hr]
+      simp [hc]
+    | some r =>
+      have hr : Spec.runForm s.env s.cells (.call f) = some (s.cells, some r) := by
+        simp only [Spec.runForm, hl, Option.bind_some, hc, Option.map_some]
+      rw [sgo_cons_some _ _ _ _ _ _ _ _ hr, sgo_nil]
+      simp [hc]
+
+theorem sEval_set (s : Spec.State) (x : Name) (n : Int) (c : Nat) (hl : Spec.lookup s.env x = some c) :
+    Spec.evalPiece s [.set x n] = ({ s with cells := s.cells.set c (.int n) }, .ok ["0"]) := by
+  rw [sEvalPiece_eq]
+  have hN : defNames [Form.set x n] = [] := rfl
+  simp only [hN, Spec.bindAll, List.foldl_nil]
+  have hb : sBuildOk s.env [Form.set x n] = true := by simp [sBuildOk, Form.uses, hl]
+  rw [if_pos hb]
+  have hr : Spec.runForm s.env s.cells (.set x n) = some (s.cells.set c (.int n), some "0") := by
+    simp only [Spec.runForm, hl, Option.map_some]
+  rw [sgo_cons_some _ _ _ _ _ _ _ _ hr, sgo_nil]
+  simp
+
+/-- In the specification, cells that exist are not touched by appending new ones: calling a function gives the
+same result when its (transitive) mentions all exist — `P` is a set of existing cells closed under "mentions". -/
+theorem sCallFn_append (cells extra : List Spec.Val) (P : Nat → Prop)
+    (hP : ∀ c, P c → c < cells.length ∧
+      ∀ refs, cells[c]? = some (.fn refs) → ∀ r ∈ refs.filterMap FRef.slot, P r) :
+    ∀ (fuel c : Nat), P c → Spec.callFn (cells ++ extra) fuel c = Spec.callFn cells fuel c := by
+  intro fuel
+  induction fuel with
+  | zero => intro c _; rfl
+  | succ fuel ih =>
+    intro c hPc
+    obtain ⟨hc, hcl⟩ := hP c hPc
+    unfold Spec.callFn
+    rw [List.getElem?_append_left hc]
+    cases hv : cells[c]? with
+    | none => rfl
+    | some v =>
+      cases v with
+      | fn refs =>
+        show (if (refs.map (sPart (cells ++ extra) fuel)).all Option.isSome = true then
+            some (showInts ((refs.map (sPart (cells ++ extra) fuel)).filterMap id)) else none) =
+          (if (refs.map (sPart cells fuel)).all Option.isSome = true then
+            some (showInts ((refs.map (sPart cells fuel)).filterMap id)) else none)
+        have : refs.map (sPart (cells ++ extra) fuel) = refs.map (sPart cells fuel) := by
+          apply List.map_congr_left
+          intro r hr
+          cases r with
+          | k n => rfl
+          | g b j =>
+            have hPj : P j := hcl refs hv j (List.mem_filterMap.mpr ⟨.g b j, hr, rfl⟩)
+            have hj : j < cells.length := (hP j hPj).1
+            simp only [sPart]
+            rw [ih j hPj, List.getElem?_append_left hj]
+            cases b
+            · simp only [Bool.false_eq_true, if_false]
+              cases hw : cells[j]? with
+              | none => rfl
+              | some w => cases w <;> rfl
+            · rfl
+        rw [this]
+      | _ => rfl
+
+/-- The cells carried by slots in use are closed under "mentions". -/
+theorem Rel.sclosed {own : Own} {s : Spec.State} {m : State} (h : Rel own s m)
+    (hA : Assigned m.sym m.globals) :
+    ∀ c, (∃ i, own i = some c) → c < s.cells.length ∧
+      ∀ refs, s.cells[c]? = some (.fn refs) → ∀ r ∈ refs.filterMap FRef.slot, ∃ j, own j = some r := by
+  rintro c ⟨i, hi⟩
+  refine ⟨(h.dom i c hi).2, ?_⟩
+  intro refs hc r hr
+  obtain ⟨v, v', h1, h2, h3⟩ := Rel.val_of_assigned (env := s.env) (cells := s.cells) (sym := m.sym)
+    (g := m.globals) h hA hi
+  rw [hc] at h2; cases h2
+  cases v <;> simp only [ValRel] at h3
+  rename_i refsM
+  -- every mention of the specification's function is the image of a mention of a slot in use
+  have : ∀ (rm rs : List FRef), rm.map (absRef own) = rs.map some →
+      ∀ r ∈ rs.filterMap FRef.slot, ∃ j, own j = some r := by
+    intro rm
+    induction rm with
+    | nil =>
+      intro rs hrs r hr
+      cases rs with
+      | nil => cases hr
+      | cons _ _ => simp at hrs
+    | cons a rm ihm =>
+      intro rs hrs r hr
+      obtain ⟨a', rs', e, ha, hrest⟩ := map_some_cons hrs
+      subst e
+      cases a with
+      | k n =>
+        simp only [absRef, Option.some.injEq] at ha
+        subst ha
+        exact ihm rs' hrest r (by simpa [List.filterMap_cons, FRef.slot] using hr)
+      | g b j =>
+        obtain ⟨cj, hcj, e⟩ := absRef_g.mp ha
+        subst e
+        have : r = cj ∨ r ∈ rs'.filterMap FRef.slot := by simpa [List.filterMap_cons, FRef.slot] using hr
+        rcases this with e | hr
+        · rw [e]; exact ⟨j, hcj⟩
+        · exact ihm rs' hrest r hr
+  exact this refsM refs h3 r hr
+
+/-- **Redefinition affects only code compiled afterwards.**  In every state reachable inside the guards (any
+state related to a specification state), redefining `x` does not change what an existing function `f ≠ x`
+returns — although the redefinition takes a slot (a fresh one or a reclaimed one), queues the old slot of `x` and
+may trigger a run of the recycler. -/
+theorem redefinition_only_affects_later_code {own : Own} {s : Spec.State} {m : State} (h : Rel own s m)
+    (hA : Assigned m.sym m.globals) (x f : Name) (n : Int) (hne : f ≠ x) :
+    (evalPiece (evalPiece m [.defc x n]).1 [.call f]).2 = (evalPiece m [.call f]).2 := by
+  obtain ⟨_, own1, h1, hA1⟩ := step_refines h hA [.defc x n] (pieceOK_defc m x n)
+  obtain ⟨e2, _⟩ := step_refines h1 hA1 [.call f] (pieceOK_call _ f)
+  obtain ⟨e3, _⟩ := step_refines h hA [.call f] (pieceOK_call m f)
+  rw [e2, e3, sEval_defc, sEval_call, sEval_call]
+  simp only [lookup_cons, if_neg hne]
+  cases hl : Spec.lookup s.env f with
+  | none => rfl
+  | some c =>
+    obtain ⟨i, c', hg, ho, hl'⟩ : ∃ i c', m.sym.get f = some i ∧ own i = some c' ∧
+        Spec.lookup s.env f = some c' := by
+      rcases h.resolve f with ⟨_, hn⟩ | hr
+      · rw [hn] at hl; cases hl
+      · exact hr
+    rw [hl] at hl'; cases hl'
+    simp only [Option.bind_some]
+    rw [sCallFn_append s.cells [.int n] (fun c => ∃ i, own i = some c) (h.sclosed hA) 64 c ⟨i, ho⟩]
+
+/-- **`set!` of a global is seen by all code referring to that binding.**  After `(set! x n)`, every slot that
+carries the cell of `x`'s binding — i.e. the slot mentioned by every function compiled against that binding —
+holds `n`; there is exactly one such slot, and the states are related again. -/
+theorem set_visible_to_all {own : Own} {s : Spec.State} {m : State} (h : Rel own s m)
+    (hA : Assigned m.sym m.globals) (x : Name) (n : Int) (c : Nat) (hx : Spec.lookup s.env x = some c) :
+    (evalPiece m [.set x n]).2 = .ok ["0"] ∧
+    ∃ own', Rel own' { s with cells := s.cells.set c (.int n) } (evalPiece m [.set x n]).1 ∧
+      (∃ r, own' r = some c ∧ (evalPiece m [.set x n]).1.sym.get x = some r) ∧
+      ∀ r, own' r = some c → (evalPiece m [.set x n]).1.globals[r]? = some (.int n) := by
+  obtain ⟨e1, own', h', hA'⟩ := step_refines h hA [.set x n] (pieceOK_set m x n)
+  rw [sEval_set s x n c hx] at e1 h'
+  refine ⟨e1, own', h', ?_, ?_⟩
+  · rcases h'.resolve x with ⟨_, hn⟩ | ⟨r, c', hg, ho, hl⟩
+    · rw [show Spec.lookup s.env x = none from hn] at hx; cases hx
+    · rw [show Spec.lookup s.env x = some c' from hl] at hx; cases hx
+      exact ⟨r, ho, hg⟩
+  · intro r hr
+    obtain ⟨v, v', h1, h2, h3⟩ := Rel.val_of_assigned (env := s.env) (cells := s.cells.set c (.int n))
+      (sym := (evalPiece m [.set x n]).1.sym) (g := (evalPiece m [.set x n]).1.globals) h' hA' hr
+    have hc : c < s.cells.length := by
+      rcases h.resolve x with ⟨_, hn⟩ | ⟨i, c', _, ho, hl⟩
+      · rw [hn] at hx; cases hx
+      · rw [hl] at hx; cases hx; exact (h.dom i c ho).2
+    rw [List.getElem?_set] at h2
+    simp only [if_true, hc] at h2
+    cases h2
+    cases v <;> simp only [ValRel] at h3
+    subst h3
+    exact h1
+
+/-- **A unit that fails to build is a no-op** (inside the guard of K06c: no reclaimed slot is waiting for reuse,
+or the unit defines nothing): the global vector is untouched and the symbol map resolves every name as before,
+with the same slot names, shadow queue, free list, threshold and epoch. -/
+theorem failed_unit_is_noop_partial (m : State) (forms : List Form) (hw : m.sym.WF)
+    (hfail : buildOk m.sym forms = false) (hg : guardC m forms = true) :
+    (evalPiece m forms).2 = .err ∧ (evalPiece m forms).1.globals = m.globals ∧
+    (evalPiece m forms).1.sym.values = m.sym.values ∧
+    (∀ n, (evalPiece m forms).1.sym.get n = m.sym.get n) ∧
+    (evalPiece m forms).1.sym.fl = m.sym.fl := by
+  rw [evalPiece_eq, if_neg (by simp [hfail])]
+  have hguard : m.sym.fl.free = [] ∨ defNames forms = [] := by
+    unfold guardC at hg
+    simp only [Bool.or_eq_true, List.isEmpty_iff, hfail, Bool.false_eq_true, false_or] at hg
+    exact hg
+  obtain ⟨hv, hgt, hfl⟩ := rollback_guarded m.sym (defNames forms) hw hguard
+  exact ⟨rfl, rfl, hv, hgt, hfl⟩
+
+/-- The unguarded statement: a unit that fails to build leaves every name resolving as before. -/
+def FailedUnitIsNoop : Prop :=
+  ∀ (m : State) (forms : List Form), m.sym.WF → m.sym.FreeOK → buildOk m.sym forms = false →
+    ∀ n, (evalPiece m forms).1.sym.get n = m.sym.get n
+
+/-- … is false (K06c): `k06cMap` is well-formed, slot 0 is reclaimed, and the failing unit
+`(define x 3) (undefined 1)` leaves `x` resolving to the reclaimed slot. -/
+theorem not_failedUnitIsNoop : ¬ FailedUnitIsNoop := by
+  intro h
+  have := h { sym := k06cMap, globals := [.void, .int 2] } [.defc "x" 3, .fail] k06cMap_wf.1 k06cMap_wf.2
+    (by decide) "x"
+  revert this
+  decide
+
+/-! ## Outside the guards: the open findings, decided -/
+
+/-- K06b (`findings/C06-K06b.txt`): `(define x 1)` | `(error "boom") (define x 5)` | `x`. -/
+def k06bHist : History := [[.defc "x" 1], [.rfail, .defc "x" 5], [.read "x"]]
+
+/-- Outside `guardB` M really deviates from S: the earlier definition of `x` is lost (S: `1`, M: error — the
+real engine: free identifier). -/
+theorem k06b_outside_guard :
+    histOK (emptyM 100 1) k06bHist = false ∧ guardB [.rfail, .defc "x" 5] = false ∧
+    runM (emptyM 100 1) k06bHist = [.ok [], .err, .err] ∧
+    runS {} k06bHist = [.ok [], .err, .ok ["1"]] := by
+  refine ⟨by decide, by decide, by decide, by decide⟩
+
+/-- K06c (`findings/C06-K06c.txt`, with the recycling threshold at 0 instead of 100 junk definitions):
+`(define x 1)` | `(define x 2)` [recycler runs: slot 0 reclaimed] | `(define x 3) (undefined 1)` | `x`. -/
+def k06cHist : History := [[.defc "x" 1], [.defc "x" 2], [.defc "x" 3, .fail], [.read "x"]]
+
+/-- Outside `guardC` M really deviates from S: after the failed build `x` resolves to the reclaimed slot
+(S: `2`, M: `#<void>` — as the real engine). -/
+theorem k06c_outside_guard :
+    histOK (emptyM 0 1) k06cHist = false ∧
+    (stateM (emptyM 0 1) [[.defc "x" 1], [.defc "x" 2]]).sym.fl.free = [0] ∧
+    guardC (stateM (emptyM 0 1) [[.defc "x" 1], [.defc "x" 2]]) [.defc "x" 3, .fail] = false ∧
+    runM (emptyM 0 1) k06cHist = [.ok [], .ok [], .err, .ok ["#<void>"]] ∧
+    runS {} k06cHist = [.ok [], .ok [], .err, .ok ["2"]] := by
+  rw [← histOKF_eq, ← stateMF_eq, ← runMF_eq]
+  refine ⟨by decide, by decide, by decide, by decide, by decide⟩
+
+/-- Use before the definition in the same unit: `x (define x 1)`.  (The real engine answers `1`: the constant
+is propagated; S answers `#<void>`, M fails.) -/
+theorem use_before_define_outside_guard :
+    guardU [.read "x", .defc "x" 1] = false ∧
+    runM (emptyM 100 1) [[.read "x", .defc "x" 1]] = [.err] ∧
+    runS {} [[.read "x", .defc "x" 1]] = [.ok ["#<void>", ]] := by
+  refine ⟨by decide, by decide, by decide⟩
+
+/-! ## The pipeline that exists: constant propagation, then M (finding K06a) -/
+
+/-- The observable trace of the pipeline that exists. -/
+def runR (m : State) : History → List Res
+  | [] => []
+  | p :: rest => (evalPieceR m p).2 :: runR (evalPieceR m p).1 rest
+
+theorem runR_eq : ∀ (hist : History) (m : State), runR m hist = runM m (hist.map propagate) := by
+  intro hist
+  induction hist with
+  | nil => intro m; rfl
+  | cons p rest ih => intro m; simp only [runR, List.map_cons, runM, evalPieceR, ih]
+
+/-- **Constant propagation is invisible inside the guard of K06a**: for every history in which no form assigns a
+cell whose definition was propagated into a function of the same unit, the specification gives the same results
+on the propagated units as on the units as written. -/
+theorem propagate_refines_partial (hist : History) (hok : histOKA [] {} hist = true) :
+    runS {} (hist.map propagate) = runS {} hist :=
+  propagate_refines_from hist pstate_empty hok
+
+/-- **The whole pipeline refines the specification** (all guards): constant propagation, symbol map, roll-back,
+recycler — for every history, any initial threshold and epoch. -/
+theorem slots_refine_cells_real (t e : Nat) (hist : History)
+    (hM : histOK (emptyM t e) (hist.map propagate) = true) (hA : histOKA [] {} hist = true) :
+    runR (emptyM t e) hist = runS {} hist := by
+  rw [runR_eq, slots_refine_cells t e _ hM, propagate_refines_partial hist hA]
+
+/-- K06a (`findings/C06-K06a.txt`): `(define x 5) (define (f) (list x))` | `(set! x 6)` | `(f)`. -/
+def k06aHist : History := [[.defc "x" 5, .deff "f" [.read "x"]], [.set "x" 6], [.call "f"]]
+
+/-- Outside `histOKA` the pipeline really deviates from S: `f` keeps answering `(5)` (as the real engine); all
+the guards of `slots_refine_cells` hold, so it is the propagation alone. -/
+theorem k06a_outside_guard :
+    histOKA [] {} k06aHist = false ∧ histOK (emptyM 100 1) (k06aHist.map propagate) = true ∧
+    runR (emptyM 100 1) k06aHist = [.ok [], .ok ["0"], .ok ["(5)"]] ∧
+    runS {} k06aHist = [.ok [], .ok ["0"], .ok ["(6)"]] := by
+  refine ⟨by decide, by decide, by decide, by decide⟩
+
+/-- The unguarded statement "the pipeline refines S on every history inside the guards of M" is false. -/
+theorem not_pipeline_refines_unguarded :
+    ¬ ∀ hist : History, histOK (emptyM 100 1) (hist.map propagate) = true →
+      runR (emptyM 100 1) hist = runS {} hist := by
+  intro h
+  have := h k06aHist k06a_outside_guard.2.1
+  rw [k06a_outside_guard.2.2.1, k06a_outside_guard.2.2.2] at this
+  revert this
+  decide
+
+/-- Non-vacuity of `propagate_refines_partial` / `slots_refine_cells_real`: the definition of `x` is propagated
+into `f` (the unit changes), `x` is then REdefined (a new cell — allowed) and assigned; `f` answers `(5)` on
+both sides, the new `g` sees the assignment. -/
 example :
-    let g : List Val := [.int 7, .fn [(false, 0)], .fn [(true, 1)], .fn [(false, 0)], .fn [(false, 0)]]
-    recycleLoop g [1, 2] [0, 3, 4] = [1, 2] := by
-  simp [recycleLoop, liveOf, dropLive, mentionedBy, slotsOf, Val.slots]
+    let hist : History := [[.defc "x" 5, .deff "f" [.read "x"]], [.defc "x" 6], [.deff "g" [.read "x"]],
+      [.set "x" 7], [.call "f", .call "g"]]
+    hist.map propagate ≠ hist ∧ histOKA [] {} hist = true ∧
+    histOK (emptyM 100 1) (hist.map propagate) = true ∧
+    runR (emptyM 100 1) hist = runS {} hist ∧
+    runS {} hist = [.ok [], .ok [], .ok [], .ok ["0"], .ok ["(5)", "(7)"]] := by
+  intro hist
+  have h1 : histOKA [] {} hist = true := by decide
+  have h2 : histOK (emptyM 100 1) (hist.map propagate) = true := by decide
+  exact ⟨by decide, h1, h2, slots_refine_cells_real 100 1 hist h2 h1, by decide⟩
+
+/-! ## Non-vacuity -/
+
+/-- A history that crosses the recycling threshold twice (1, then 2) while the live function `h` still refers to
+the shadowed first `f`, which refers to the shadowed first `v`; the first slot of `j` is reclaimed and reused by
+the second `f`; it contains a failing build, a run-time failure and a literal. -/
+def exHist : History :=
+  [[.defc "v" 7], [.deff "f" [.read "v"]], [.deff "h" [.call "f", .const 3]], [.defc "j" 1],
+   [.defc "j" 2], [.defc "v" 8], [.deff "f" [.read "v"]],
+   [.defc "w" 9], [.set "v" 10], [.call "h", .call "f", .read "w", .read "j"],
+   [.defc "w" 11, .fail], [.set "w" 12, .rfail], [.read "w"],
+   [.defc "w" 13], [.defc "w" 14], [.call "h", .read "w"]]
+
+/-- `slots_refine_cells` applies to it.  The recycler ran twice (epoch 3, threshold 4); the first run reclaimed
+slot 3 (the first `j`), which the second `f` took; the old `f` and the old `v` (slots 1 and 0) survived both runs
+because `h` still calls them: `(h)` is `((7) 3)` although `v` is `10` for the new `f`; the second run reclaimed
+the first two slots of `w`. -/
+example :
+    histOK (emptyM 1 1) exHist = true ∧
+    runS {} exHist = [.ok [], .ok [], .ok [], .ok [], .ok [], .ok [], .ok [], .ok [], .ok ["0"],
+      .ok ["((7) 3)", "(10)", "9", "2"], .err, .err, .ok ["12"], .ok [], .ok [], .ok ["((7) 3)", "14"]] ∧
+    runM (emptyM 1 1) exHist = runS {} exHist ∧
+    (stateM (emptyM 1 1) exHist).sym.fl = { shadowed := [], free := [6, 7], threshold := 4, epoch := 3 } ∧
+    (stateM (emptyM 1 1) exHist).sym.get "f" = some 3 ∧
+    (stateM (emptyM 1 1) exHist).globals[1]? = some (.fn [.g false 0]) ∧
+    (stateM (emptyM 1 1) exHist).globals[2]? = some (.fn [.g true 1, .k 3]) := by
+  have hok : histOK (emptyM 1 1) exHist = true := by rw [← histOKF_eq]; decide
+  refine ⟨hok, by decide, slots_refine_cells 1 1 exHist hok, ?_, ?_, ?_, ?_⟩ <;>
+    (rw [← stateMF_eq]; decide)
+
+/-- `redefinition_only_affects_later_code` and `set_visible_to_all` apply in the state after that history. -/
+example : ∃ own s, Rel own s (stateM (emptyM 1 1) exHist) ∧
+    Assigned (stateM (emptyM 1 1) exHist).sym (stateM (emptyM 1 1) exHist).globals ∧
+    Spec.lookup s.env "v" = some 5 := by
+  have hok : histOK (emptyM 1 1) exHist = true := by rw [← histOKF_eq]; decide
+  obtain ⟨_, own, h, hA⟩ := slots_refine_cells_from exHist (rel_empty 1 1) rfl hok
+  exact ⟨own, _, h, hA, by decide⟩
+
+/-- `failed_unit_is_noop_partial` on a unit that redefines twice and fails, from a state with a shadowed name. -/
+example : (evalPiece { sym := exMap, globals := [.int 1, .int 2, .int 3] }
+      [.defc "a" 5, .defc "b" 6, .defc "a" 7, .fail]).1.sym.get "a" = some 2 :=
+  ((failed_unit_is_noop_partial { sym := exMap, globals := [.int 1, .int 2, .int 3] }
+    [.defc "a" 5, .defc "b" 6, .defc "a" 7, .fail] (reachable_wf _ exMap_reachable).1 (by decide)
+    (by decide)).2.2.2.1 "a").trans (by decide)
 
 end SteelVerif.C06
